@@ -78,7 +78,8 @@ impl Stats {
     /// # Ok::<(),error::CIError>(())
     /// ```
     pub fn ci(&self, confidence: Confidence, quantile: f64) -> CIResult<Interval<usize>> {
-        if quantile <= 0. || 1. <= quantile {
+        if !(quantile > 0. && quantile < 1.) {
+            // also rejects NaN
             return Err(error::CIError::InvalidQuantile(quantile));
         }
 
@@ -224,7 +225,9 @@ pub fn ci_sorted_unchecked<T>(
 where
     T: PartialOrd + Clone,
 {
-    assert!(quantile > 0. && quantile < 1.);
+    if !(quantile > 0. && quantile < 1.) {
+        return Err(error::CIError::InvalidQuantile(quantile));
+    }
 
     ci_indices(confidence, sorted.len(), quantile).and_then(|indices| match indices.into() {
         (Some(lo), Some(hi)) => {
